@@ -227,9 +227,58 @@ def rule_4(ctx):
     ctx.floor(16, 'scan structure of the four functions')
 
 
+CRITERIA_TABLE = [
+    # criterion, [(probe class, probe value, matches?)]
+    ('<>banana', [('Text', 'BANANA', False), ('Text', 'banana', False), ('Text', 'apple', True), ('Number', 3, True)]),
+    ('banana', [('Text', 'Banana', True), ('Text', 'x', False), ('Number', 1, False)]),
+    ('=banana', [('Text', 'BANANA', True), ('Text', 'bananas', False)]),
+    ('>5', [('Number', 6, True), ('Number', 5, False), ('Number', 4.5, False)]),
+    ('>=5', [('Number', 5, True), ('Number', 4.99, False)]),
+    ('<5', [('Number', 4, True), ('Number', 5, False)]),
+    ('<=2.5', [('Number', 2.5, True), ('Number', 3, False)]),
+    ('<>5', [('Number', 5, False), ('Number', 5.5, True)]),
+    ('=5', [('Number', 5, True), ('Number', 6, False)]),
+    ('5', [('Number', 5, True), ('Number', 6, False)]),
+    (5, [('Number', 5, True), ('Number', 6, False)]),
+    ('>b', [('Text', 'c', True), ('Text', 'C', True), ('Text', 'a', False)]),
+    ('-7', [('Number', -7, True), ('Number', 7, False)]),
+    ('(none)', [('Text', '(none)', True), ('Text', 'none', False)]),
+]
+
+
+def rule_5(ctx):
+    """parse_criteria(criterion)(cell value) on witness criteria and cell values, through the real operator wrappers and the real
+    comparison methods of the value classes (constant propagation): the six operators, text case-insensitively, numbers numerically."""
+    from xlsa.guards import World, ExcRaised
+    cm = ctx.mod('xlfunctions.xlcriteria')
+    pc = cm.func('parse_criteria')
+
+    def nodate(*a, **k):
+        raise ExcRaised(Ref('builtin:ValueError'))      # none of the witness texts is a date
+    world = World()
+    n = 0
+    for crit, probes in CRITERIA_TABLE:
+        for pcls, pval, want in probes:
+            probe = Rec(cls=XLT + pcls, value=pval)
+            it = Interp(ctx.a, cm, {'c': crit, 'p': probe}, inline_pkg=True, world=world, call_models={'ext:dateutil.parser.parse': nodate})
+            out = it.run(ast.parse('chk = parse_criteria(c)\nreturn chk(p)').body)
+            if out.end == 'return' and isinstance(out.value, Rec) and 'value' in out.value.f:
+                got = out.value.f['value']
+            elif out.end == 'return' and isinstance(out.value, bool):
+                got = out.value
+            else:
+                got = f'<{out.end} {out.value!r}>'
+            n += 1
+            ctx.expect(got == want, pc, f'criterion {crit!r} on the {pcls.lower()} {pval!r}',
+                       f'the criterion {crit!r} applied to a cell holding the {pcls.lower()} {pval!r} gives {got!r}, expected {want!r} '
+                       '(operator prefix <, <=, =, <>, >=, > or plain value meaning "="; texts compare case-insensitively, also for <>)')
+    ctx.floor(n, 'criteria x cell values')
+
+
 RULES = [
     ('C15.1', 'selectors select (parameter influence on returned values)', rule_1),
     ('C15.2', 'criteria operator table, prefix regex, fallback', rule_2),
     ('C15.3', 'index guards: CHOOSE decision table, MATCH position, VLOOKUP guards dominate returns', rule_3),
     ('C15.4', 'every cell is tested', rule_4),
+    ('C15.5', 'criteria decision table on witness criteria and cell values', rule_5),
 ]
